@@ -290,7 +290,7 @@ def renames(req):
     return False
 
 
-def random_history(rng, pool, n):
+def random_history(rng, pool, n, backed=False):
     """n requests sampled from the matrix pool; the store evolves (requests that were generated
     against the fixture now meet deleted, replaced and newly created resources).  Identifier-changing
     PUTs of nested elements are left out (their later merges are outside the model, see Http.v)."""
@@ -301,6 +301,10 @@ def random_history(rng, pool, n):
             continue
         if renames(r) and r["body"][2]["k"] == "elem":
             continue
+        if backed and (renames(r) or (r["method"] == "POST" and r.get("path") == "l1")):
+            continue    # open findings on a local-file store that are outside the model (see scenarios())
+        if backed and r["rule"] in ("/shells", "/submodels", "/concept-descriptions") and r["method"] in ("GET", "HEAD"):
+            r = dict(r, query=[(k, v) for (k, v) in r["query"] if k not in ("limit", "cursor")])  # directory order
         out.append(r)
     return out
 
@@ -326,4 +330,10 @@ def scenarios():
             for r in reqs[2:]:
                 r["sig"] = ("local-file-" if backed else "") + "after-id-changing-put"
             out.append((f"rename-{k}-{'file' if backed else 'mem'}", backed, reqs, backed))
+    # POST of an item into a SubmodelElementList on a backed store (TypeError while building the Location)
+    sm = {"k": "sm", "id": "urn:a", "ids": "S", "tok": 1, "quals": [], "elems": [L("l1", [])]}
+    reqs = [rq("/submodels", "POST", ("val", "json", sm)),
+            rq("/submodels/<base64url:submodel_id>/submodel-elements/<id_short_path:id_shorts>", "POST",
+               ("val", "json", dict(P(None, 2), k="elem")), sm=b64("urn:a"), path="l1", sig="post-into-list:local-file")]
+    out.append(("post-into-list-file", True, reqs, True))
     return out
